@@ -226,6 +226,14 @@ class Opq:
         return show(s.key()[1:]) if len(s.k) > 1 else f"⟪{s.k[0]}⟫"
 
 
+class _TermNode(ast.expr):
+    """an already evaluated term standing in a synthesised statement"""
+    _fields = ()
+    def __init__(self, term):
+        super().__init__(); self.term = term; self.lineno = 0; self.col_offset = 0; self.end_lineno = 0; self.end_col_offset = 0
+
+
+BREAK = Opq('BREAK')
 RAISE = Opq('RAISE')
 
 
@@ -382,6 +390,7 @@ class Evaluator:
         s.assume_finite = True             # np.isfinite(x) folds to True (recorded by the rules as an assumption)
         s.raises: list = []                # pruned raise branches: guard, polarity, exception name, path condition
         s._pc: list = []
+        s.real_methods: set = set()        # names of methods (of uninterpreted objects) whose results are real numbers
         s.atom_types: dict = {}            # atom name -> builtin type name of the value it stands for (decides isinstance tests on inputs)
         s.raise_lookup_errors = False      # True: a decidable KeyError outside any try ends the evaluation (RAISE) instead of yielding an opaque value
         s.inline_str_classes: set = set()    # classes whose __str__ is unfolded when an instance is formatted (default: str(obj) stays a symbolic part)
@@ -398,7 +407,7 @@ class Evaluator:
     def fresh(s):
         """evaluator with the same configuration but none of the facts / stores learnt while evaluating code (used for specifications)"""
         e = Evaluator(s.prog, s.real, s._init_facts, s.depth_limit)
-        e.opaque_fns = set(s.opaque_fns); e.opaque_classes = set(s.opaque_classes); e.self_class = s.self_class; e.self_atom = s.self_atom; e.integer = set(s.integer); e.mod_facts = dict(s.mod_facts); e.assume_finite = s.assume_finite; e.atom_methods = dict(s.atom_methods); e.inline_self_methods = set(s.inline_self_methods); e.atom_types = dict(s.atom_types)
+        e.opaque_fns = set(s.opaque_fns); e.opaque_classes = set(s.opaque_classes); e.self_class = s.self_class; e.self_atom = s.self_atom; e.integer = set(s.integer); e.mod_facts = dict(s.mod_facts); e.assume_finite = s.assume_finite; e.atom_methods = dict(s.atom_methods); e.inline_self_methods = set(s.inline_self_methods); e.atom_types = dict(s.atom_types); e.real_methods = set(s.real_methods)
         return e
 
     def learn(s, g, polarity: bool, exc=None, top=True):
@@ -526,6 +535,8 @@ class Evaluator:
         return Ref('builtin', None, None, name)
 
     # ------------------------------------------------------------------ expressions
+    def e__TermNode(s, e, env, mod, depth): return e.term
+
     def ev(s, e, env, mod, depth=0):
         m = getattr(s, 'e_' + type(e).__name__, None)
         if m is None: return Opq('?', type(e).__name__ + ':' + ast.unparse(e)[:60])
@@ -1039,6 +1050,8 @@ class Evaluator:
 
     def getitem(s, v, k):
         if isinstance(v, Cond): return Cond(v.g, s.getitem(v.a, k), s.getitem(v.b, k))
+        if isinstance(v, Opq) and v.k and v.k[0] in ('list', 'tuple') and len(v.k) == 2 and isinstance(v.k[1], Poly) and isinstance(k, Poly) and k.real_const() is not None:
+            v = v.k[1]          # a copy of a sequence is indexed like the sequence
         if isinstance(k, Cond): return Cond(k.g, s.getitem(v, k.a), s.getitem(v, k.b))
         if isinstance(v, dict):
             for kk, vv in v.items():
@@ -1108,6 +1121,9 @@ class Evaluator:
             if r is not None: return r
         if isinstance(recv, Cond):
             return Cond(recv.g, s.call_method(recv.a, attr, args, kw, mod, depth, node), s.call_method(recv.b, attr, args, kw, mod, depth, node))
+        if isinstance(recv, Ref) and recv.kind == 'builtin' and recv.name == 'dict' and attr == 'fromkeys' and args and isinstance(args[0], (list, tuple)):
+            v_ = args[1] if len(args) > 1 else None
+            return {(k_ if isinstance(k_, (str, int, bool)) or k_ is None else _HK(k_)): v_ for k_ in args[0]}
         if isinstance(recv, Ref) and recv.kind in ('module', 'ext', 'class'):
             return s.apply(s.getattr(recv, attr, mod, depth), args, kw, mod, depth, node)
         if attr == 'conjugate' and not args: return s.npcall('conj', [recv], {})
@@ -1194,6 +1210,10 @@ class Evaluator:
                 if nm.endswith('functools.partial') or nm == 'functools.partial':
                     return Opq('partial', *args, *[Opq('kw', k, v) for k, v in sorted(kw.items())])
                 if nm.split('.')[-1] in ('deepcopy', 'copy') and args: return args[0]
+                if nm in ('itertools.chain.from_iterable',) and len(args) == 1 and isinstance(args[0], Comp) and args[0].kind in ('list', 'gen') and not kw:
+                    # chain.from_iterable(xs(c) for c in C)  ==  [x for c in C for x in xs(c)]
+                    c_ = args[0]; lvl_ = len(c_.gens)
+                    return Comp(s.elem_of(c_.elt, lvl_), list(c_.gens) + [(c_.elt, [])], 'list')
                 if nm in ('itertools.product', 'product') and args:
                     rp = kw.get('repeat')
                     n = int(rp.real_const()) if isinstance(rp, Poly) and rp.real_const() is not None else (1 if rp is None else None)
@@ -1206,7 +1226,13 @@ class Evaluator:
             return s.apply(base, pre + list(args), pkw, mod, depth, node)
         if isinstance(fv, Opq) and fv.k and fv.k[0] == 'dispatch':
             return Opq('dispatchcall', fv.k[1], fv.k[2], tuple(args), kw)
+        if isinstance(fv, Rec) and fv.clsref and depth < s.depth_limit:
+            cm_ = s.prog.find_member(fv.clsref[0], fv.clsref[1], '__call__')       # a callable object
+            if cm_ and isinstance(cm_[1], ast.FunctionDef):
+                return s.call_fn(cm_[1], cm_[0], [fv] + list(args), kw, {'__parent__': None}, depth + 1)
         if isinstance(fv, Poly) and fv.as_atom() is not None:
+            at_ = fv.as_atom()
+            if isinstance(at_, tuple) and len(at_) == 3 and at_[0] == '.': s.atom_calls.append((at_[1], at_[2], list(args), dict(kw), tuple(s._pc)))     # a bound method fetched first, called later
             return Poly.atom(('call', fv.as_atom(), tuple(tkey(a) for a in args), tuple(sorted((k, tkey(v)) for k, v in kw.items()))))
         return Opq('?', 'call', fv, *args)
 
@@ -1281,6 +1307,7 @@ class Evaluator:
         if name == 'abs': return s.npcall('abs', args, kw)
         if name == 'round' and len(args) >= 1: return s.npcall('round', args, kw)
         if name == 'len':
+            while isinstance(a, Opq) and a.k and a.k[0] in ('list', 'tuple', 'keys', 'iter') and len(a.k) == 2 and not isinstance(a.k[1], Comp): a = a.k[1]     # a copy has the length of the original
             if isinstance(a, (list, tuple, dict, str)): return Poly.const(len(a))
             return Poly.atom(('len', tkey(a)))
         if name == 'getattr' and len(args) >= 2 and isinstance(args[1], str):
@@ -1339,9 +1366,12 @@ class Evaluator:
         if name in ('any', 'all', 'sum', 'min', 'max', 'sorted', 'tuple') and args and isinstance(args[0], Comp) and args[0].kind == 'gen':
             args = [Comp(args[0].elt, args[0].gens, 'list')] + list(args[1:])          # a generator argument is consumed like the list
             a = args[0]
+        if name in ('any', 'all') and len(args) == 1 and isinstance(args[0], Comp) and not isinstance(args[0].elt, (tuple, list)):
+            args = [Comp(s.truth(args[0].elt), args[0].gens, 'list')]          # any / all test the truth of each element
+            a = args[0]
         if name in ('min', 'max', 'sorted', 'set', 'len', 'any', 'all') and len(args) == 1 and not kw:
             a_ = args[0]
-            while isinstance(a_, Opq) and a_.k and a_.k[0] in ('list', 'keys', 'tuple', 'iter') and len(a_.k) == 2 and not (name in ('sorted', 'set', 'len') and a_.k[0] != 'keys'):
+            while isinstance(a_, Opq) and a_.k and a_.k[0] in ('list', 'keys', 'tuple', 'iter') and len(a_.k) == 2 and not (name in ('sorted', 'set') and a_.k[0] != 'keys'):
                 a_ = a_.k[1]        # min(d.keys()) == min(list(d)) == min(d)
             args = [a_]
         if name == 'zip' and len(args) == 2 and not kw:
@@ -1386,6 +1416,9 @@ class Evaluator:
     def _atom_real(s, at):
         if at in s.real or at in ('pi', 'inf', 'e'): return True
         if isinstance(at, tuple) and at and at[0] in REAL_HEADS: return True
+        if isinstance(at, tuple) and len(at) == 4 and at[0] == 'call' and isinstance(at[1], tuple) and at[1][:1] == ('.',) and at[1][2] in s.real_methods: return True
+        if isinstance(at, tuple) and at and at[0] == 'exp' and isinstance(at[1], tuple) and at[1][:1] == ('poly',):
+            return s.is_real(Poly(dict(at[1][1:])))
         if isinstance(at, tuple) and at and at[0] in ('cos', 'sin') and isinstance(at[1], tuple) and at[1][0] == 'poly':
             return s.is_real(Poly(dict(at[1][1:])))
         return False
@@ -1393,6 +1426,8 @@ class Evaluator:
     def conj(s, p: Poly) -> Poly:
         def f(at):
             if s._atom_real(at): return None
+            if isinstance(at, tuple) and at and at[0] == 'exp' and isinstance(at[1], tuple) and at[1][:1] == ('poly',):
+                return s.npcall('exp', [s.conj(Poly(dict(at[1][1:])))], {})
             if isinstance(at, tuple) and at and at[0] == 'conj': return Poly.atom(at[1]) if not (isinstance(at[1], tuple) and at[1] and at[1][0] == 'poly') else Poly(dict(at[1][1:]))
             if isinstance(at, tuple) and at and at[0] == 'inv' and isinstance(at[1], tuple) and at[1][0] == 'poly':
                 return s.conj(Poly(dict(at[1][1:]))).inv()
@@ -1564,7 +1599,7 @@ class Evaluator:
             if isinstance(st, ast.Continue): return FALL
             if isinstance(st, ast.Break):
                 if s._build is not None: s._build['ok'] = False
-                return FALL
+                return BREAK
             if isinstance(st, (ast.Assign, ast.AnnAssign)):
                 if isinstance(st, ast.AnnAssign) and st.value is None: continue
                 val = s.ev(st.value, env, mod, depth)
@@ -1664,7 +1699,10 @@ class Evaluator:
                     if it.optional_vars is not None: s.assign(it.optional_vars, s.ev(it.context_expr, env, mod, depth), env, mod, depth)
                 return s.block(st.body + rest, env, mod, depth)
             elif isinstance(st, (ast.For, ast.While)):
-                s.loop(st, env, mod, depth)
+                lr = s.loop(st, env, mod, depth)
+                if isinstance(lr, tuple) and lr and lr[0] == 'return-if':
+                    # the loop returns lr[2] as soon as an element passes the test; otherwise what follows the loop happens
+                    return s.block([ast.If(test=_TermNode(lr[1]), body=[ast.Return(value=_TermNode(lr[2]))], orelse=[])] + rest, env, mod, depth)
             elif isinstance(st, ast.FunctionDef):
                 fv_ = Closure(st, env, mod, st.name)
                 for d_ in reversed(st.decorator_list):
@@ -1754,19 +1792,52 @@ class Evaluator:
                     s.assign(st.target, item, env, mod, depth)
                     s.block(st.body, env, mod, depth)
                 return
+            if isinstance(it, (list, tuple)) and len(it) <= 24 and not st.orelse and not any(isinstance(n, ast.Return) for n in ast.walk(st)):
+                # the same with break / continue, as long as every exit test is decided for the concrete items
+                snap_env = dict(env); snap_st = dict(s.stores); ok_ = True
+                for item in it:
+                    s.assign(st.target, item, env, mod, depth)
+                    r_ = s.block(st.body, env, mod, depth)
+                    if r_ is BREAK: break
+                    if r_ is not FALL and r_ is not None: ok_ = False; break
+                if ok_: return
+                env.clear(); env.update(snap_env); s.stores = snap_st
+            sr = s.search_loop(st, it, env, mod, depth)
+            if sr is not None: return sr
             if s.accumulate(st, it, env, mod, depth): return
             if s.array_build(st, it, env, mod, depth, assigned, tnames): return
-            body = st.body
-            filt = []
-            while len(body) == 1 and isinstance(body[0], ast.If) and not body[0].orelse:
-                filt.append(body[0].test); body = body[0].body
-            if len(body) == 1 and isinstance(body[0], ast.AugAssign) and isinstance(body[0].op, ast.Add) and isinstance(body[0].target, ast.Name):
-                nm = body[0].target.id
+            # running sum:  acc = 0; for x in it: [tmp = ..] [if c:] acc += e  (also spelled acc = acc + e)   ==   Σ(e for x in it if c)
+            body = list(st.body)
+            steps = []          # ('tmp', Assign) | ('if', test)
+            def _sum_stmt(b_):
+                if isinstance(b_, ast.AugAssign) and isinstance(b_.op, ast.Add) and isinstance(b_.target, ast.Name): return b_.target.id, b_.value
+                if isinstance(b_, ast.Assign) and len(b_.targets) == 1 and isinstance(b_.targets[0], ast.Name) and isinstance(b_.value, ast.BinOp) and isinstance(b_.value.op, ast.Add):
+                    nm_ = b_.targets[0].id
+                    if isinstance(b_.value.left, ast.Name) and b_.value.left.id == nm_: return nm_, b_.value.right
+                    if isinstance(b_.value.right, ast.Name) and b_.value.right.id == nm_: return nm_, b_.value.left
+                return None
+            while True:
+                if len(body) > 1 and isinstance(body[0], (ast.Assign, ast.AnnAssign)) and _sum_stmt(body[0]) is None and isinstance(body[0].targets[0] if isinstance(body[0], ast.Assign) else body[0].target, ast.Name) \
+                        and (body[0].targets[0] if isinstance(body[0], ast.Assign) else body[0].target).id not in _chain_names(env) and body[0].value is not None:
+                    steps.append(('tmp', body.pop(0))); continue
+                if len(body) == 1 and isinstance(body[0], ast.If) and not body[0].orelse:
+                    steps.append(('if', body[0].test)); body = list(body[0].body); continue
+                break
+            ss_ = _sum_stmt(body[0]) if len(body) == 1 else None
+            if ss_ is not None:
+                nm = ss_[0]
                 cur = s.lookup(nm, env, mod)
                 if isinstance(cur, Poly) and cur.is_zero():
                     env2 = {'__parent__': env}
                     s.bind_iter(st.target, it, env2, mod, depth, 0)
-                    fs = [s.truth(s.ev(c, env2, mod, depth)) for c in filt]
+                    fs = []
+                    for kind_, x_ in steps:
+                        if kind_ == 'tmp':
+                            tg_ = x_.targets[0] if isinstance(x_, ast.Assign) else x_.target
+                            env2[tg_.id] = s.ev(x_.value, env2, mod, depth)
+                        else:
+                            fs.append(s.truth(s.ev(x_, env2, mod, depth)))
+                    body = [ast.AugAssign(target=ast.Name(id=nm, ctx=ast.Store()), op=ast.Add(), value=ss_[1])]
                     s.rebind(nm, Opq('Σ', Comp(s.ev(body[0].value, env2, mod, depth), [(_fuse_iter(it), [f for f in fs if f is not True])], 'gen')), env)
                     return
             env2 = {'__parent__': env}
@@ -1793,6 +1864,28 @@ class Evaluator:
             for nm in assigned: s.rebind(nm, Opq('?', 'while-carried ' + nm), env)
 
     # ---- accumulate loops  ==  comprehensions
+    def search_loop(s, st, it, env, mod, depth):
+        """for x in it: [tmp = ..] if test(x): return CONST      ==  ('return-if', any(test(x) for x in it), CONST)   -- the caller continues with what
+        follows the loop on the other arm"""
+        if st.orelse: return None
+        body = list(st.body)
+        temps = []
+        while body and isinstance(body[0], (ast.Assign, ast.AnnAssign)) and isinstance(body[0].targets[0] if isinstance(body[0], ast.Assign) else body[0].target, ast.Name):
+            temps.append(body.pop(0))
+        if len(body) != 1 or not isinstance(body[0], ast.If) or body[0].orelse or len(body[0].body) != 1 or not isinstance(body[0].body[0], ast.Return): return None
+        env2 = {'__parent__': env}
+        s.bind_iter(st.target, it, env2, mod, depth, 0)
+        for t_ in temps:
+            tg_ = t_.targets[0] if isinstance(t_, ast.Assign) else t_.target
+            if t_.value is None or tg_.id in _chain_names(env): return None
+            env2[tg_.id] = s.ev(t_.value, env2, mod, depth)
+        g = s.truth(s.ev(body[0].test, env2, mod, depth))
+        rv = s.ev(body[0].body[0].value, env2, mod, depth) if body[0].body[0].value is not None else None
+        beta_key = repr(tkey(s.elem_of(it, 0)))
+        if beta_key in repr(tkey(rv)): return None           # the returned value depends on the element found: first-match semantics, not modelled
+        base_, fl_ = _fuse_iter2(_fuse_iter(it))
+        return ('return-if', s.builtin('any', [Comp(g, [(base_, fl_)], 'list')], {}, mod, depth), rv)
+
     def _acc_target(s, e, env, mod, depth):
         """(kind of place, key, current value) of an accumulator expression: a local name or an attribute of an atom (self.x)"""
         if isinstance(e, ast.Name):
